@@ -189,6 +189,9 @@ def b_list(I, x=()):
 def b_set(I, x=()):
     if hasattr(x, "as_set"):
         return x.as_set(I)
+    if isinstance(x, SymSeq):
+        from .symsets import SetV
+        return SetV(x.length, x.fn)
     items = I.iterate(x)
     if all(isinstance(v, (str, int, Fraction)) for v in items):
         return set(items)
